@@ -51,7 +51,7 @@ func genAst(r *rand.Rand, names []string, depth int) *AstD {
 	case 0:
 		return &AstD{Op: "not", Args: []*AstD{genAst(r, names, depth-1)}}
 	case 1:
-		k := 1 + r.Intn(min(4, len(names)))
+		k := 1 + r.Intn(min(7, len(names)))
 		perm := r.Perm(len(names))
 		ns := make([]string, k)
 		for i := range ns {
